@@ -3,167 +3,137 @@
 
    Reading guide.  [S] is any unit schema (unit classes, units, SI prefixes) with [wf_schema S = true]
    (a boolean check, kernel-evaluated for every bundled schema in C11_bundled_wf); [cs] any list of its unit
-   classes (the classes of a value-taking tag); [n] the number text, [u] the unit text, [n ++ 32 :: u] is
-   "<n> <u>".  [spells S U M u]: u is the symbol of U exactly, or its name in singular or plural in any letter
-   case, optionally preceded by a prefix M the unit permits.  [cands S cs n = []]: the number text is not itself
-   a unit spelling; [unamb S cs u = true]: the unit text has a single reading (the only bundled exception is
-   computed in C11_ambiguity_extent).  [fixed = false] is the code as it stands, [fixed = true] the repaired
-   lookup/parsing.  Values are exact rationals (IEEE rounding is not modelled). *)
+   classes (the classes of a value-taking tag).  [n ++ 32 :: u] is "<n> <u>": [n] the number text (one word),
+   [u] the unit text -- ANY number of words since repair F3 --, and (v, w) its split at the LAST blank (the split
+   the code tries for a prefix-type unit before the number; v = n and w = u when u is one word).
+   [spells S U M u]: u is the symbol of U exactly, or its name in singular or plural in any letter case,
+   optionally preceded by a prefix M the unit permits.  [cands S cs v = []]: the text before the last blank is
+   not itself a unit spelling; [unamb S cs u = true]: the unit text has a single reading (the only bundled
+   exception is computed in C11_ambiguity_extent).
+   Switches of Model/Units.v, all [true] = the code as it now is:
+     value_as_default_unit fixed f3 f4,  check_units_valid f3 f4
+     fixed: fix: commits f83491d, d18c9c6 (findings 10, 11);  f3: repair of C11-F3;  f4: repair of C11-F4.
+   Theorems named *_refuted are the RECORD of the repaired defects (switch = false).
+   Values are exact rationals (IEEE rounding is not modelled). *)
 From Coq Require Import List NArith ZArith QArith Bool.
 From HV Require Import Base.Res Base.Str Model.Units Proofs.UnitsProofs Proofs.UnitsData Gen.UnitsAll.
 Import ListNotations.
 Local Open Scope N_scope.
 
-(* "<number> <unit>" draws no unit issue (only what the number itself deserves) EXACTLY when the unit text
-   spells a non-prefix unit of one of the tag's classes. *)
+(* ======================================================================= the code as it now is *)
+
+(* "<number> <unit text>" draws no unit issue (only what the number itself deserves) EXACTLY when the unit text
+   -- one word or several -- spells a non-prefix unit of one of the tag's classes. *)
 Theorem C11_accepted_iff :
   forall (S : uschema) (cs : list classdef),
   wf_schema S = true -> (forall C, In C cs -> In C (s_classes S)) ->
-  forall (T : utag) (n u : str),
-  no_space u -> u <> [] -> n <> [] -> no_space n -> cands S cs n = [] -> unamb S cs u = true ->
-  (check_units_valid S T cs (n ++ 32 :: u) = check_value_class T n <-> spelled_in S cs false u).
+  forall (T : utag) (n u v w : str),
+  no_space n -> n <> [] -> u <> [] ->
+  rpartition_space (n ++ 32 :: u) = (v, w) -> w <> [] -> cands S cs v = [] -> unamb S cs u = true ->
+  (check_units_valid true true S T cs (n ++ 32 :: u) = check_value_class T n <-> spelled_in S cs false u).
 Proof. exact accepted_iff_lemma. Qed.
 Print Assumptions C11_accepted_iff.
 
-(* prefix-type units (such as $) stand before the number *)
+(* prefix-type units (such as $) stand before the number (the same under every switch) *)
 Theorem C11_accepted_prefix :
   forall (S : uschema) (cs : list classdef),
   wf_schema S = true -> (forall C, In C cs -> In C (s_classes S)) ->
-  forall (T : utag) (n u : str),
-  no_space n -> n <> [] -> u <> [] -> cands S cs n = [] -> unamb S cs u = true ->
+  forall (f3 f4 : bool) (T : utag) (n u : str),
+  no_space n -> no_space u -> n <> [] -> u <> [] -> cands S cs n = [] -> unamb S cs u = true ->
   spelled_in S cs true u ->
-  check_units_valid S T cs (u ++ 32 :: n) = check_value_class T n.
+  check_units_valid f3 f4 S T cs (u ++ 32 :: n) = check_value_class T n.
 Proof. exact accepted_prefix_lemma. Qed.
 Print Assumptions C11_accepted_prefix.
 
-(* a bare number draws only the missing-unit warning -- for EVERY schema, no hypothesis on it *)
+(* a bare number draws only the missing-unit warning -- for EVERY schema and every switch *)
 Theorem C11_bare_number_warns_only :
-  forall (S : uschema) (T : utag) (cs : list classdef) (n : str),
+  forall (f3 f4 : bool) (S : uschema) (T : utag) (cs : list classdef) (n : str),
   n <> [] -> no_space n -> (t_numeric T = true -> is_numeric n = true) ->
-  check_units_valid S T cs n = [UNITS_MISSING].
+  check_units_valid f3 f4 S T cs n = [UNITS_MISSING].
 Proof. exact bare_number_lemma. Qed.
 Print Assumptions C11_bare_number_warns_only.
 
-(* any other unit text (also a prefix-type unit written after the number) is reported as an invalid unit *)
+(* any other unit text -- one word or several, also a prefix-type unit written after the number -- is reported
+   as an invalid unit *)
 Theorem C11_other_text_invalid :
   forall (S : uschema) (cs : list classdef),
   wf_schema S = true -> (forall C, In C cs -> In C (s_classes S)) ->
-  forall (T : utag) (n u : str),
-  no_space u -> no_space n -> cands S cs n = [] ->
+  forall (T : utag) (n u v w : str),
+  no_space n -> rpartition_space (n ++ 32 :: u) = (v, w) -> cands S cs v = [] ->
   ~ spelled_in S cs false u ->
-  check_units_valid S T cs (n ++ 32 :: u) = check_value_class T n ++ [UNITS_INVALID].
+  check_units_valid true true S T cs (n ++ 32 :: u) = check_value_class T n ++ [UNITS_INVALID].
 Proof. exact other_text_invalid_lemma. Qed.
 Print Assumptions C11_other_text_invalid.
 
-(* FULL clause "accepted + declared factor => the value is defined", proved for the repaired code ... *)
+(* accepted + declared factor => the value is defined *)
 Theorem C11_convert_defined :
   forall (S : uschema) (cs : list classdef),
   wf_schema S = true -> (forall C, In C cs -> In C (s_classes S)) ->
-  forall (n u : str) (C : classdef) (U : unitdef) (M : option moddef) (ft : str),
-  no_space u -> u <> [] -> n <> [] -> cands S cs n = [] -> unamb S cs u = true ->
+  forall (n u v w : str) (C : classdef) (U : unitdef) (M : option moddef) (ft : str),
+  no_space n -> n <> [] ->
+  rpartition_space (n ++ 32 :: u) = (v, w) -> w <> [] -> cands S cs v = [] -> unamb S cs u = true ->
   In C cs -> In U (c_units C) -> spells S U M u -> u_prefix U = false ->
   u_factor U = Some ft -> is_numeric n = true ->
-  exists q, value_as_default_unit true S cs (n ++ 32 :: u) = Ok (Some q).
+  exists q, value_as_default_unit true true true S cs (n ++ 32 :: u) = Ok (Some q).
 Proof. exact convert_defined_lemma. Qed.
 Print Assumptions C11_convert_defined.
 
-(* ... and FALSE of the code as it stands (finding 10): "Duration/3 Seconds" with HED 8.3.0 meets every
-   hypothesis above, validates without any issue, and the conversion raises TypeError. *)
-Theorem C11_convert_refuted_case :
-  exists S cs n u C U M ft (T : utag),
-    wf_schema S = true /\ (forall C, In C cs -> In C (s_classes S)) /\
-    no_space u /\ u <> [] /\ n <> [] /\ cands S cs n = [] /\ unamb S cs u = true /\
-    In C cs /\ In U (c_units C) /\ spells S U M u /\ u_prefix U = false /\
-    u_factor U = Some ft /\ is_numeric n = true /\
-    check_units_valid S T cs (n ++ 32 :: u) = [] /\
-    value_as_default_unit false S cs (n ++ 32 :: u) = Exn TypeError.
-Proof. exact convert_refuted_case_lemma. Qed.
-Print Assumptions C11_convert_refuted_case.
-
-(* FULL clause "the value equals the number times the unit's and the prefix's factors" ("a^b" = a to the b),
-   proved for the repaired code ... *)
+(* the value equals the number times the unit's and the prefix's declared factors ("a^b" = a to the b) *)
 Theorem C11_convert_value :
   forall (S : uschema) (cs : list classdef),
   wf_schema S = true -> (forall C, In C cs -> In C (s_classes S)) ->
-  forall (n u : str) (x : Q) (C : classdef) (U : unitdef) (M : option moddef) (ft : str) (fU fM : Q),
-  no_space u -> u <> [] -> n <> [] -> cands S cs n = [] -> unamb S cs u = true ->
+  forall (n u v w : str) (x : Q) (C : classdef) (U : unitdef) (M : option moddef) (ft : str) (fU fM : Q),
+  no_space n -> n <> [] ->
+  rpartition_space (n ++ 32 :: u) = (v, w) -> w <> [] -> cands S cs v = [] -> unamb S cs u = true ->
   In C cs -> In U (c_units C) -> spells S U M u -> u_prefix U = false ->
   u_factor U = Some ft -> unit_factor U = Some fU -> mod_factor M = Some fM ->
   parse_float n = Some x ->
-  value_as_default_unit true S cs (n ++ 32 :: u) = Ok (Some (Qmult x (Qmult fU fM))).
+  value_as_default_unit true true true S cs (n ++ 32 :: u) = Ok (Some (Qmult x (Qmult fU fM))).
 Proof. exact convert_value_lemma. Qed.
 Print Assumptions C11_convert_value.
 
-(* ... the same for a prefix-type unit before the number ... *)
+(* the same for a prefix-type unit before the number *)
 Theorem C11_convert_value_prefix :
   forall (S : uschema) (cs : list classdef),
   wf_schema S = true -> (forall C, In C cs -> In C (s_classes S)) ->
-  forall (n u : str) (x : Q) (C : classdef) (U : unitdef) (M : option moddef) (ft : str) (fU fM : Q),
-  no_space n -> n <> [] -> u <> [] -> cands S cs n = [] -> unamb S cs u = true ->
+  forall (f3 f4 : bool) (n u : str) (x : Q) (C : classdef) (U : unitdef) (M : option moddef) (ft : str)
+         (fU fM : Q),
+  no_space n -> no_space u -> n <> [] -> u <> [] -> cands S cs n = [] -> unamb S cs u = true ->
   In C cs -> In U (c_units C) -> spells S U M u -> u_prefix U = true ->
   u_factor U = Some ft -> unit_factor U = Some fU -> mod_factor M = Some fM ->
   parse_float n = Some x ->
-  value_as_default_unit true S cs (u ++ 32 :: n) = Ok (Some (Qmult x (Qmult fU fM))).
+  value_as_default_unit true f3 f4 S cs (u ++ 32 :: n) = Ok (Some (Qmult x (Qmult fU fM))).
 Proof. exact value_prefix_lemma. Qed.
 Print Assumptions C11_convert_value_prefix.
 
-(* ... FALSE of the code as it stands (finding 11): "Duration/3 Ms" with HED 8.2.0 (mega declared 10^6) gives
-   3 * 10^7 where the declared factors give 3 * 10^6 ... *)
-Theorem C11_convert_refuted_mega :
-  exists S cs n u x C U M ft fU fM q,
-    wf_schema S = true /\ (forall C, In C cs -> In C (s_classes S)) /\
-    no_space u /\ u <> [] /\ n <> [] /\ cands S cs n = [] /\ unamb S cs u = true /\
-    In C cs /\ In U (c_units C) /\ spells S U M u /\ u_prefix U = false /\
-    u_factor U = Some ft /\ unit_factor U = Some fU /\ mod_factor M = Some fM /\
-    parse_float n = Some x /\
-    value_as_default_unit false S cs (n ++ 32 :: u) = Ok (Some q) /\
-    Qeq q (30000000 # 1) /\ Qeq (Qmult x (Qmult fU fM)) (3000000 # 1) /\
-    ~ Qeq q (Qmult x (Qmult fU fM)).
-Proof. exact convert_refuted_mega_lemma. Qed.
-Print Assumptions C11_convert_refuted_mega.
-
-(* ... and TRUE of the code as it stands under two explicit extra hypotheses: the text is the derived key itself
-   (a symbol, or a name written in lower case) and neither factor text contains a caret. *)
-Theorem C11_convert_value_partial :
-  forall (S : uschema) (cs : list classdef),
-  wf_schema S = true -> (forall C, In C cs -> In C (s_classes S)) ->
-  forall (n u : str) (x : Q) (C : classdef) (U : unitdef) (M : option moddef) (ft : str) (fU fM : Q),
-  no_space u -> u <> [] -> n <> [] -> cands S cs n = [] -> unamb S cs u = true ->
-  In C cs -> In U (c_units C) -> spells S U M u -> u_prefix U = false ->
-  u_factor U = Some ft -> unit_factor U = Some fU -> mod_factor M = Some fM ->
-  parse_float n = Some x ->
-  (u_symbol U = true \/ casefold u = u) ->
-  no_caret ft = true -> (forall m, M = Some m -> no_caret (factor_text (m_factor m)) = true) ->
-  value_as_default_unit false S cs (n ++ 32 :: u) = Ok (Some (Qmult x (Qmult fU fM))).
-Proof. exact convert_value_partial_lemma. Qed.
-Print Assumptions C11_convert_value_partial.
-
-(* the value is linear in the number (repaired code) *)
+(* the value is linear in the number *)
 Theorem C11_linear :
   forall (S : uschema) (cs : list classdef),
   wf_schema S = true -> (forall C, In C cs -> In C (s_classes S)) ->
-  forall (n1 n2 : str) (x1 x2 k : Q) (u : str) (C : classdef) (U : unitdef) (M : option moddef) (ft : str),
-  no_space u -> u <> [] -> n1 <> [] -> n2 <> [] ->
-  cands S cs n1 = [] -> cands S cs n2 = [] -> unamb S cs u = true ->
+  forall (n1 n2 v1 v2 w : str) (x1 x2 k : Q) (u : str) (C : classdef) (U : unitdef) (M : option moddef)
+         (ft : str),
+  no_space n1 -> no_space n2 -> n1 <> [] -> n2 <> [] ->
+  rpartition_space (n1 ++ 32 :: u) = (v1, w) -> rpartition_space (n2 ++ 32 :: u) = (v2, w) -> w <> [] ->
+  cands S cs v1 = [] -> cands S cs v2 = [] -> unamb S cs u = true ->
   In C cs -> In U (c_units C) -> spells S U M u -> u_prefix U = false ->
   u_factor U = Some ft ->
   parse_float n1 = Some x1 -> parse_float n2 = Some x2 -> Qeq x1 (Qmult k x2) ->
   exists q1 q2,
-    value_as_default_unit true S cs (n1 ++ 32 :: u) = Ok (Some q1) /\
-    value_as_default_unit true S cs (n2 ++ 32 :: u) = Ok (Some q2) /\
+    value_as_default_unit true true true S cs (n1 ++ 32 :: u) = Ok (Some q1) /\
+    value_as_default_unit true true true S cs (n2 ++ 32 :: u) = Ok (Some q2) /\
     Qeq q1 (Qmult k q2).
 Proof. exact linear_lemma. Qed.
 Print Assumptions C11_linear.
 
-(* for an unrecognised unit the value is absent, never an exception -- the code as it stands and repaired,
-   any text before the last blank *)
+(* for an unrecognised unit text (one word or several) the value is absent, never an exception
+   (whether or not the conversion repairs are in) *)
 Theorem C11_unrecognised_absent :
   forall (S : uschema) (cs : list classdef),
   wf_schema S = true -> (forall C, In C cs -> In C (s_classes S)) ->
-  forall (fixed : bool) (a b : str),
-  a <> [] -> no_space b ->
-  ~ spelled_in S cs false b -> ~ spelled_in S cs true a ->
-  value_as_default_unit fixed S cs (a ++ 32 :: b) = Ok None.
+  forall (fixed : bool) (n u v w : str),
+  no_space n -> n <> [] -> rpartition_space (n ++ 32 :: u) = (v, w) ->
+  ~ spelled_in S cs false u -> ~ spelled_in S cs true v ->
+  value_as_default_unit fixed true true S cs (n ++ 32 :: u) = Ok None.
 Proof. exact unrecognised_absent_lemma. Qed.
 Print Assumptions C11_unrecognised_absent.
 
@@ -171,28 +141,29 @@ Print Assumptions C11_unrecognised_absent.
 Theorem C11_no_factor_absent :
   forall (S : uschema) (cs : list classdef),
   wf_schema S = true -> (forall C, In C cs -> In C (s_classes S)) ->
-  forall (fixed : bool) (n u : str) (C : classdef) (U : unitdef) (M : option moddef),
-  no_space u -> u <> [] -> n <> [] -> cands S cs n = [] -> unamb S cs u = true ->
+  forall (fixed : bool) (n u v w : str) (C : classdef) (U : unitdef) (M : option moddef),
+  no_space n -> n <> [] ->
+  rpartition_space (n ++ 32 :: u) = (v, w) -> w <> [] -> cands S cs v = [] -> unamb S cs u = true ->
   In C cs -> In U (c_units C) -> spells S U M u -> u_prefix U = false ->
   u_factor U = None ->
-  value_as_default_unit fixed S cs (n ++ 32 :: u) = Ok None.
+  value_as_default_unit fixed true true S cs (n ++ 32 :: u) = Ok None.
 Proof. exact value_suffix_no_factor. Qed.
 Print Assumptions C11_no_factor_absent.
+
+(* with one-word number and unit texts the two splitting repairs change nothing *)
+Theorem C11_single_words_unchanged :
+  forall (f3 f4 : bool) (S : uschema) (cs : list classdef) (a b : str),
+  no_space a -> no_space b ->
+  get_tag_units_portion f3 f4 S cs (a ++ 32 :: b) = get_tag_units_portion false false S cs (a ++ 32 :: b).
+Proof. exact portion_flags_single. Qed.
+Print Assumptions C11_single_words_unchanged.
+
+(* ======================================================================= kernel-evaluated data obligations *)
 
 (* every bundled schema's translated unit table satisfies the well-formedness predicate *)
 Example C11_bundled_wf : forallb (fun x => wf_schema (snd (fst x))) all_schemas = true.
 Proof. exact wf_all_bundled. Qed.
 Print Assumptions C11_bundled_wf.
-
-(* extent of finding 11, per bundled schema (8.0.0, 8.1.0, 8.2.0, 8.3.0, score 1.0.0/1.1.0/2.0.0, testlib
-   1.0.2/2.0.0/2.1.0/3.0.0): the factor the code computes equals the declared one for every text without a
-   caret and is exactly ten times the declared one for each of the 30 texts with a caret *)
-Example C11_factor_extent :
-  map (fun x => (factor_extent_ok (snd (fst x)), caret_count (snd (fst x)))) all_schemas
-  = [(true, 0); (true, 30); (true, 30); (true, 0); (true, 30); (true, 30);
-     (true, 0); (true, 0); (true, 30); (true, 30); (true, 30)]%nat.
-Proof. exact factor_extent_bundled. Qed.
-Print Assumptions C11_factor_extent.
 
 (* the derived keys with more than one reading, per bundled schema and unit class: only "uV" in
    electricPotentialUnits of 8.3.0 and score 2.0.0 *)
@@ -208,7 +179,104 @@ Example C11_nonvacuous :
   exists fU fM,
     unit_factor U83_s = Some fU /\ mod_factor (Some m83_m) = Some fM /\
     Qeq fU 1 /\ Qeq fM (1 # 1000) /\
-    value_as_default_unit true S83 cs83 (s_3 ++ 32 :: s_ms)
+    value_as_default_unit true true true S83 cs83 (s_3 ++ 32 :: s_ms)
       = Ok (Some (Qmult (Qmult (inject_Z 3) (pow10 0)) (Qmult fU fM))).
 Proof. exact nonvacuous_lemma. Qed.
 Print Assumptions C11_nonvacuous.
+
+(* non-vacuity for a unit name that contains a blank: "Temperature/3 degree Celsius" (HED 8.1.0) is accepted
+   and C11_convert_value gives 3 * (1.0 * 1) *)
+Example C11_nonvacuous_blank_name :
+  exists fU,
+    unit_factor U81_degC = Some fU /\ Qeq fU 1 /\
+    check_units_valid true true S81 T81 cs81 (s_3 ++ 32 :: s_degree_Celsius) = [] /\
+    value_as_default_unit true true true S81 cs81 (s_3 ++ 32 :: s_degree_Celsius)
+      = Ok (Some (Qmult (Qmult (inject_Z 3) (pow10 0)) (Qmult fU 1))).
+Proof. exact nonvacuous_blank_lemma. Qed.
+Print Assumptions C11_nonvacuous_blank_name.
+
+(* ======================================================================= RECORD of the repaired defects *)
+
+(* C11-F3 (f3 = false, with or without repair F4): C11_accepted_iff was FALSE -- "Temperature/3 degree Celsius"
+   with HED 8.1.0 meets its hypotheses, the unit text spells the unit, and the answer was UNITS_INVALID *)
+Theorem C11_accepted_refuted_blank_name :
+  exists S cs n u v w (T : utag),
+    wf_schema S = true /\ (forall C, In C cs -> In C (s_classes S)) /\
+    no_space n /\ n <> [] /\ u <> [] /\ rpartition_space (n ++ 32 :: u) = (v, w) /\ w <> [] /\
+    cands S cs v = [] /\ unamb S cs u = true /\
+    spelled_in S cs false u /\ check_value_class T n = [] /\
+    (forall f4, check_units_valid false f4 S T cs (n ++ 32 :: u) = [UNITS_INVALID]) /\
+    (forall f4, value_as_default_unit true false f4 S cs (n ++ 32 :: u) = Ok None).
+Proof. exact accepted_refuted_blank_name_lemma. Qed.
+Print Assumptions C11_accepted_refuted_blank_name.
+
+(* C11-F4 (f3 = f4 = false): C11_other_text_invalid and C11_unrecognised_absent were FALSE -- "Duration/3 m s"
+   with HED 8.3.0 meets their hypotheses, drew no issue at all, and the conversion raised ValueError *)
+Theorem C11_other_text_refuted_extra_words :
+  exists S cs n u v w (T : utag),
+    wf_schema S = true /\ (forall C, In C cs -> In C (s_classes S)) /\
+    no_space n /\ rpartition_space (n ++ 32 :: u) = (v, w) /\ cands S cs v = [] /\
+    ~ spelled_in S cs false u /\ ~ spelled_in S cs true v /\
+    check_units_valid false false S T cs (n ++ 32 :: u) = [] /\
+    value_as_default_unit true false false S cs (n ++ 32 :: u) = Exn ValueError.
+Proof. exact other_text_refuted_extra_words_lemma. Qed.
+Print Assumptions C11_other_text_refuted_extra_words.
+
+(* finding 10 (fixed = false, before fix: f83491d): C11_convert_defined was FALSE -- "Duration/3 Seconds" with
+   HED 8.3.0 meets its hypotheses, validated without any issue, and the conversion raised TypeError *)
+Theorem C11_convert_refuted_case :
+  exists S cs n u v w C U M ft (T : utag),
+    wf_schema S = true /\ (forall C, In C cs -> In C (s_classes S)) /\
+    no_space n /\ n <> [] /\ rpartition_space (n ++ 32 :: u) = (v, w) /\ w <> [] /\
+    cands S cs v = [] /\ unamb S cs u = true /\
+    In C cs /\ In U (c_units C) /\ spells S U M u /\ u_prefix U = false /\
+    u_factor U = Some ft /\ is_numeric n = true /\
+    check_units_valid false false S T cs (n ++ 32 :: u) = [] /\
+    value_as_default_unit false false false S cs (n ++ 32 :: u) = Exn TypeError /\
+    value_as_default_unit false true true S cs (n ++ 32 :: u) = Exn TypeError.
+Proof. exact convert_refuted_case_lemma. Qed.
+Print Assumptions C11_convert_refuted_case.
+
+(* finding 11 (fixed = false, before fix: d18c9c6): C11_convert_value was FALSE -- "Duration/3 Ms" with HED 8.2.0
+   (mega declared 10^6) gave 3 * 10^7 where the declared factors give 3 * 10^6 *)
+Theorem C11_convert_refuted_mega :
+  exists S cs n u v w x C U M ft fU fM q,
+    wf_schema S = true /\ (forall C, In C cs -> In C (s_classes S)) /\
+    no_space n /\ n <> [] /\ rpartition_space (n ++ 32 :: u) = (v, w) /\ w <> [] /\
+    cands S cs v = [] /\ unamb S cs u = true /\
+    In C cs /\ In U (c_units C) /\ spells S U M u /\ u_prefix U = false /\
+    u_factor U = Some ft /\ unit_factor U = Some fU /\ mod_factor M = Some fM /\
+    parse_float n = Some x /\
+    value_as_default_unit false false false S cs (n ++ 32 :: u) = Ok (Some q) /\
+    value_as_default_unit false true true S cs (n ++ 32 :: u) = Ok (Some q) /\
+    Qeq q (30000000 # 1) /\ Qeq (Qmult x (Qmult fU fM)) (3000000 # 1) /\
+    ~ Qeq q (Qmult x (Qmult fU fM)).
+Proof. exact convert_refuted_mega_lemma. Qed.
+Print Assumptions C11_convert_refuted_mega.
+
+(* ... and was TRUE before those fixes only when the text is the derived key itself (a symbol, or a name written
+   in lower case) and neither factor text contains a caret *)
+Theorem C11_convert_value_partial :
+  forall (S : uschema) (cs : list classdef),
+  wf_schema S = true -> (forall C, In C cs -> In C (s_classes S)) ->
+  forall (n u v w : str) (x : Q) (C : classdef) (U : unitdef) (M : option moddef) (ft : str) (fU fM : Q),
+  no_space n -> n <> [] ->
+  rpartition_space (n ++ 32 :: u) = (v, w) -> w <> [] -> cands S cs v = [] -> unamb S cs u = true ->
+  In C cs -> In U (c_units C) -> spells S U M u -> u_prefix U = false ->
+  u_factor U = Some ft -> unit_factor U = Some fU -> mod_factor M = Some fM ->
+  parse_float n = Some x ->
+  (u_symbol U = true \/ casefold u = u) ->
+  no_caret ft = true -> (forall m, M = Some m -> no_caret (factor_text (m_factor m)) = true) ->
+  value_as_default_unit false true true S cs (n ++ 32 :: u) = Ok (Some (Qmult x (Qmult fU fM))).
+Proof. exact convert_value_partial_lemma. Qed.
+Print Assumptions C11_convert_value_partial.
+
+(* extent of finding 11, per bundled schema (8.0.0, 8.1.0, 8.2.0, 8.3.0, score 1.0.0/1.1.0/2.0.0, testlib
+   1.0.2/2.0.0/2.1.0/3.0.0): the factor the unrepaired code computed equals the declared one for every text
+   without a caret and is exactly ten times the declared one for each of the 30 texts with a caret *)
+Example C11_factor_extent :
+  map (fun x => (factor_extent_ok (snd (fst x)), caret_count (snd (fst x)))) all_schemas
+  = [(true, 0); (true, 30); (true, 30); (true, 0); (true, 30); (true, 30);
+     (true, 0); (true, 0); (true, 30); (true, 30); (true, 30)]%nat.
+Proof. exact factor_extent_bundled. Qed.
+Print Assumptions C11_factor_extent.
